@@ -1,0 +1,14 @@
+//go:build verif
+
+package suffix
+
+// Contracts for /verif/bin/govc.  Comment-only.
+
+// Frame only (ASSUMED): handing out the next suffix reads and rewrites the
+// suffix FILE; of the program's memory it touches nothing the callers' contracts
+// speak about (the optional GetNextSuffixHook is part of this assumption).
+//@ func GetNextSuffix
+//@   assumed
+//@   pure
+//@   note frame only (ASSUMED): works on the suffix file; the optional GetNextSuffixHook is included in the assumption
+//@ end
